@@ -587,6 +587,8 @@ class _Frame:
             return exact(v)
         if isinstance(n.op, ast.Not):
             return not self.truth(v, n)
+        if isinstance(n.op, ast.Invert) and getattr(type(v), "_xeval_open", False):
+            return ~v
         raise self.bad("unary operator", n)
 
     def e_BinOp(self, n):
@@ -804,7 +806,7 @@ class _Frame:
             return Opaque(f"{obj.tag}.{attr}")
         if isinstance(obj, Sink):
             return obj
-        if isinstance(obj, SimpleNamespace):
+        if isinstance(obj, SimpleNamespace) or getattr(type(obj), "_xeval_open", False):
             if hasattr(obj, attr):
                 return getattr(obj, attr)
         raise self.bad(f"attribute {attr} of {type(obj).__name__}", n)
